@@ -881,6 +881,140 @@ def convertible (ibd : List UInt8) (m : Model) : Bool :=
     (match s.tic with | some t => (pyFloat t).isSome | none => true) &&
     (readOf ibd m.mz s).isSome && (readOf ibd m.inten s).isSome)
 
+/-! ## from text lines to abstract lines
+
+The state machine above works on abstract lines; here is how the code's string tests classify a text
+line (`str.startswith`, `str.find`, the regular expression at the top of `fast_parse_imzml`).  `tokenise`
+is defined for lines on which the classification does not depend on the loop that reads them (a line
+that begins like one of the eight tags does not also match the regular expression, and the garbage the
+`id="` scan yields on a `…List` or `…Ref` line is not a group name); every line of a rendered document is
+such a line, which the driver checks for every generated file. -/
+
+/-- `str.strip()` (ASCII white space; Python also strips other Unicode spaces) -/
+def isSpaceChar (c : Char) : Bool :=
+  c == ' ' || c == '\t' || c == '\n' || c == '\r' || c == '\x0b' || c == '\x0c' ||
+  c == '\x1c' || c == '\x1d' || c == '\x1e' || c == '\x1f'
+
+def pyStrip (l : List Char) : List Char := ((l.dropWhile isSpaceChar).reverse.dropWhile isSpaceChar).reverse
+
+/-- index of the first occurrence of `pat` in `s`, counting from `i` for the head of `s` -/
+def findIdxFrom (pat : List Char) : List Char → Nat → Option Nat
+  | [], i => if pat.isEmpty then some i else none
+  | c :: r, i => if pat.isPrefixOf (c :: r) then some i else findIdxFrom pat r (i + 1)
+
+/-- `s.find(pat, start)`; `-1` when there is none -/
+def pyFind (s pat : List Char) (start : Nat) : Int :=
+  match findIdxFrom pat (s.drop start) start with
+  | some i => (i : Int)
+  | none => -1
+
+/-- `s[a:b]` for `a ≥ 0` and any `b` (a negative `b` counts from the end) -/
+def pySlice (s : List Char) (a : Nat) (b : Int) : List Char :=
+  let e : Nat := if b < 0 then (s.length : Int) + b |>.toNat else min b.toNat s.length
+  (s.take e).drop a
+
+/-- `k = line.find(attr + '="', len(tag)) + len(attr) + 2; line[k : line.find('"', k)]` -/
+def attrScan (line : List Char) (tagLen : Nat) (attr : String) : String :=
+  let pat := attr.toList ++ ['=', '"']
+  let k : Nat := (pyFind line pat tagLen + (pat.length : Int)).toNat
+  String.ofList (pySlice line k (pyFind line ['"'] k))
+
+/-- `\d` restricted to ASCII (Python's also accepts other Unicode decimal digits) -/
+def reDigit (c : Char) : Bool := c.isDigit
+
+/-- after `accession="`: `(I?MS:\d+)`; the accession and what follows it -/
+def matchAcc (r : List Char) : Option (List Char × List Char) :=
+  let (pre, r1) : List Char × List Char :=
+    match r with
+    | 'I' :: t => (['I'], t)
+    | _ => ([], r)
+  match r1 with
+  | 'M' :: 'S' :: ':' :: t =>
+    let ds := t.takeWhile reDigit
+    if ds.isEmpty then none else some (pre ++ ['M', 'S', ':'] ++ ds, t.dropWhile reDigit)
+  | _ =>
+    -- `I?` may also match nothing in front of a text that starts with `I`: then `MS:` must follow at once, which it does not
+    none
+
+/-- `(?:.*value="([^"]+)")?` on the rest of the line: greedy `.*`, so the LAST place where `value="`
+is followed by at least one character other than a quote and then a quote -/
+def matchValue (cls : List Char → Bool) : List Char → Option (List Char)
+  | [] => none
+  | c :: r =>
+    match matchValue cls r with
+    | some v => some v
+    | none =>
+      if ("value=\"".toList).isPrefixOf (c :: r) then
+        let body := (c :: r).drop 7
+        let v := body.takeWhile cls'
+        if !v.isEmpty && (body.dropWhile cls').head? == some '"' then some v else none
+      else none
+where cls' (c : Char) : Bool := c != '"' && cls [c]
+
+/-- `re_accession.search(line)`: the leftmost `accession="` that is followed by an accession, and the
+value group.  `cls` is the character class of the value (`[^"]` now, `[\w.]` before 91b0006), given on
+one-character strings -/
+def reSearch (cls : List Char → Bool) : List Char → Option (String × Option String)
+  | [] => none
+  | c :: r =>
+    if ("accession=\"".toList).isPrefixOf (c :: r) then
+      match matchAcc ((c :: r).drop 11) with
+      | some (acc, rest) => some (String.ofList acc, (matchValue cls rest).map String.ofList)
+      | none => reSearch cls r
+    else reSearch cls r
+
+def clsAnyC (_ : List Char) : Bool := true
+def clsWordC (l : List Char) : Bool := l.all (fun c => c.isAlphanum || c == '_' || c == '.')
+
+/-- the tags the loops test for, longest first where one is a prefix of another -/
+def tagTable : List (String × Tag) :=
+  [("referenceableParamGroupList", .groupList), ("referenceableParamGroup", .group),
+   ("scanSettingsList", .settingsList), ("scanSettings", .settings),
+   ("spectrumList", .spectrumList), ("spectrum", .spectrum),
+   ("binaryDataArrayList", .arrayList), ("binaryDataArray", .array)]
+
+def startsWith (line : List Char) (p : String) : Bool := p.toList.isPrefixOf line
+
+/-- a text line as the abstract line the state machine reads; `none` when the classification would depend
+on which loop reads the line -/
+def tokenise (cls : List Char → Bool) (text : String) : Option Line :=
+  let line := pyStrip text.toList
+  let re := reSearch cls line
+  let isRef := startsWith line "<referenceableParamGroupRef"
+  let opn := tagTable.find? (fun (n, _) => startsWith line ("<" ++ n))
+  let clo := tagTable.find? (fun (n, _) => startsWith line ("</" ++ n))
+  if isRef then
+    -- inside an array: the regular expression is tried first, then the reference; in the group list the
+    -- line passes the `<referenceableParamGroup` test and its `id="` scan must not give a group name
+    let gid := attrScan line 24 "id"
+    if re.isSome || gid == "mzArray" || gid == "intensities" then none
+    else some (.ref (attrScan line 27 "ref"))
+  else
+    match opn, clo with
+    | some (_, t), _ =>
+      if re.isSome then none else
+      match t with
+      | .group => some (.opn .group (attrScan line 24 "id"))
+      | .groupList =>
+        let gid := attrScan line 24 "id"
+        if gid == "mzArray" || gid == "intensities" then none else some (.opn .groupList "")
+      | t => some (.opn t "")
+    | none, some (_, t) => if re.isSome then none else some (.cls t)
+    | none, none =>
+      match re with
+      | some (a, v) => some (.cv a v)
+      | none => some .misc
+
+/-- lines no loop reacts to are all alike: an opening or closing tag the parser does not know, and
+anything else without an accession -/
+def Line.norm : Line → Line
+  | .opn .other _ => .misc
+  | .cls .other => .misc
+  | l => l
+
+/-- the text of a file, line by line, as the abstract lines of the state machine -/
+def tokeniseAll (cls : List Char → Bool) (texts : List String) : Option (List Line) := texts.mapM (tokenise cls)
+
 /-! ## what the callback hands back
 
 `fast_parse_imzml` tests `if not callback(fp.tell())`: the truth value of whatever object the callback
